@@ -1,9 +1,10 @@
 import GoaktVerif.Driver.Conc
 import GoaktVerif.Model.C15
+import GoaktVerif.Model.C15Grain
 import GoaktVerif.Spec.C15
 
 /-
-C15 driver:  ask <asis|nopool|fixed> | prog0 ; prog1 ; … | schedule      ops: a<k> (Ask with request id k), h (dequeue + Response)
+C15 driver:  ask <asis|nopool|fixed> | prog0 ; prog1 ; … | schedule      ops: a<k> / b<k> / c<k> (PID.Ask / actor.Ask / handleRemoteAsk with request id k: one protocol), h (dequeue + Response)
 With N programs, schedule entry t < N steps thread t, entry N+i is the deadline of caller i.
 `CAS:responseClosed` and the send of `Response` are one step here, as in the instrumented code.
 -/
@@ -13,7 +14,7 @@ open GoaktVerif.Model.C15
 
 def parseOp (s : String) : Option Op :=
   if s = "h" then some .handle
-  else if s.startsWith "a" then (s.drop 1).toString.toNat?.map .ask
+  else if s.startsWith "a" || s.startsWith "b" || s.startsWith "c" then (s.drop 1).toString.toNat?.map .ask
   else none
 
 def showRes : Res → String
@@ -62,7 +63,54 @@ def machine : Machine where
   final := fun c =>
     s!"ctxpool={flags (c.ctxPool.map fun i => (ctxOf c i).closed)} chanpool={flags (c.chanPool.map fun i => (chanOf c i).isSome)} mbox={c.mbox.length}"
 
-def model (line : String) : String := runConc machine line
+/-! ### grain path:  gask asis | progs | schedule -/
+
+def parseOpG (s : String) : Option Model.C15Grain.Op :=
+  if s = "h" then some .handle
+  else if s.startsWith "a" then (s.drop 1).toString.toNat?.map .ask
+  else none
+
+def showResG : Model.C15Grain.Res → String
+  | .reply v => s!"r{v}"
+  | .timeout => "timeout"
+  | .handled k => s!"h{k}"
+  | .empty => "empty"
+
+def grainMachine : Machine where
+  Cfg := Model.C15Grain.Cfg
+  init := fun cfg progs =>
+    match words cfg, progs.mapM (fun (p : List String) => p.mapM parseOpG) with
+    | ["gask", "asis"], some ps => some (Model.C15Grain.init false ps)
+    | ["gask", "fixed"], some ps => some (Model.C15Grain.init true ps)
+    | _, _ => none
+  nthreads := fun c => 2 * c.threads.length
+  done := fun c t =>
+    let i := if t < c.threads.length then t else t - c.threads.length
+    match c.threads[i]? with
+    | some th => th.pc.isNone
+    | none => true
+  step := fun c t =>
+    let n := c.threads.length
+    if t ≥ n then ("Timeout", Model.C15Grain.timeout c (t - n))
+    else match c.threads[t]? with
+      | none => ("!nothread", c)
+      | some th =>
+        match th.pc with
+        | none => ("!done", c)
+        | some pc =>
+          if Model.C15Grain.blocked c th then (Model.C15Grain.label pc ++ "!blocked", c)
+          else
+            let c1 := Model.C15Grain.step c t
+            let c2 := match pc, (c1.threads[t]?).bind (·.pc) with
+              | .hCas .., some (.hSend ..) => Model.C15Grain.step c1 t
+              | _, _ => c1
+            (Model.C15Grain.label pc, c2)
+  results := fun c => c.threads.map fun t => t.hist.reverse.map fun (_, r) => showResG r
+  final := fun c =>
+    s!"ctxpool={flags (c.ctxPool.map fun i => (Model.C15Grain.ctxOf c i).closed)} chanpool={c.chanPool.length} mbox={Model.C15Grain.linked c 1000 c.head}"
+
+def model (line : String) : String :=
+  if line.startsWith "gask" then runConc grainMachine line else runConc machine line
 
 def judge (line : String) : String :=
   let (case, out) := splitTab line
